@@ -108,6 +108,12 @@ def _run(pm: ProgramModel, ctx: Ctx, mb: ModelBuilder, cd: Codec) -> None:
               "empty-map": {}, "negative-int": -3, "float": 2.5,
               "str": "some text", "list": [1, 2.5, "a"], "list-with-bool": [1, True],
               "nested-map": {"k": 1, "inner": {"x": "y"}}, "empty-list": []}
+    # containers by number and kind of items (a list of one item is not a shorter list of two)
+    for sk, sv in (("int", 7), ("zero", 0), ("negative-int", -3), ("float", 2.5), ("bool", True), ("str", "a")):
+        values[f"list-of-one:{sk}"] = [sv]
+        values[f"list-in-list-of-one:{sk}"] = [[sv]]
+        values[f"map-with-list-of-one:{sk}"] = {"k": [sv], "z": 1}
+    values["list-of-lists"] = [[1, 2], [3]]
     for vk, v in values.items():
         root = mb.feature("Root")
         a = mb.feature("A")
